@@ -96,13 +96,14 @@ Definition with_hash (u : uop) : op :=
 Definition uop_wf (u : uop) : Prop :=
   match u with UDraw img _ | UErase img _ => image_wf img | UEvent _ => True end.
 
-Theorem history_ok_hashed (quiet : bool) (uops : list uop) : Forall uop_wf uops ->
-  let ops := map with_hash uops in
+Theorem history_ok_hashed (quiet : bool) (uops : list (uop * bool)) : Forall (fun ul => uop_wf (fst ul)) uops ->
+  let ops := map (fun ul => (with_hash (fst ul), snd ul)) uops in
   let trace := lockstep (kitty_new quiet) store0 ops in
   Forall (fun s' => t_errs s' = [] /\ t_pending s' = None /\ places_valid s') trace /\
-  once_scan [] (combine (map err_of ops) (map sent_ids trace)) = true.
+  once_scan [] (combine (map (fun ol => err_of (fst ol)) ops) (map sent_ids trace)) = true.
 Proof.
-  intros H. apply (history_ok _ (kitty_new quiet) store0 (inv_init quiet)).
+  intros H. apply (history_ok false _ (kitty_new quiet) store0 (inv_init false quiet)).
   apply Forall_forall. intros o Ho. apply in_map_iff in Ho as (u & <- & Hu).
-  rewrite Forall_forall in H. specialize (H u Hu). destruct u; exact H.
+  rewrite Forall_forall in H. specialize (H u Hu). cbn [fst snd]. split; [|discriminate].
+  destruct (fst u); exact H.
 Qed.
